@@ -378,6 +378,10 @@ def match_known(pid, clause, sig, features, known):
 def _feat_match(have, want):
     if isinstance(want, list):
         return have in want
+    if isinstance(want, str) and want.startswith("re:"):
+        import re
+
+        return isinstance(have, str) and re.fullmatch(want[3:], have) is not None
     return have == want
 
 
